@@ -236,6 +236,13 @@ class Interp:
             ch = s.get('ch') or []
             # IfStmt children: [cond, then, else?] (init/condvar absent in this code base)
             cond = ch[0]
+            sel = self.select_stmt(fn, s)
+            if sel is not None:
+                # `if (x < y) y = x;` is y = min(y, x): selection by comparison of the two selected values
+                f, tgt, x, y = sel
+                v = f(self.expr(fn, x, env, depth), self.expr(fn, y, env, depth))
+                env[tgt['ref']['id']] = self.conv(fn, v, tgt.get('ct', tgt.get('t')), s)
+                return None
             cm = self.expr(fn, cond, env, depth).mono if cond else 'c'
             e1 = dict(env)
             r1 = self.block(fn, ch[1], e1, depth) if len(ch) > 1 and ch[1] else None
@@ -357,6 +364,9 @@ class Interp:
             return self.expr(fn, kids(e)[0], env, depth)
         if k == 'ConditionalOperator':
             c, a, b = kids(e)
+            f = self.select(fn, c, a, b)
+            if f is not None:
+                return f(self.expr(fn, a, env, depth), self.expr(fn, b, env, depth))
             cm = self.expr(fn, c, env, depth).mono
             j = join(self.expr(fn, a, env, depth), self.expr(fn, b, env, depth))
             if cm != 'c':
@@ -455,6 +465,51 @@ class Interp:
         if k == 'CXXConstructExpr' and len(kids(e)) == 1:
             return self.expr(fn, kids(e)[0], env, depth)
         raise AnalysisBroken('ARITH: expression kind %s at %s outside the understood subset' % (k, fn.loc(e)))
+
+    # selection by comparison -------------------------------------------------------------
+    def select(self, fn, cond, t, f):
+        """`cond ? t : f` where cond compares exactly t and f: vmin / vmax, else None"""
+        from rules.effects import canon
+        c = strip_casts(cond)
+        while c['k'] in ('ParenExpr', 'ExprWithCleanups'):
+            c = strip_casts(kids(c)[0])
+        op = None
+        if c['k'] == 'BinaryOperator' and c.get('op') in ('<', '>', '<=', '>='):
+            op = c['op']
+            a, b = kids(c)
+        elif c['k'] == 'CXXOperatorCallExpr' and (c.get('callee') or {}).get('n', '').split('::')[-1] in (
+                'operator<', 'operator>', 'operator<=', 'operator>='):
+            op = c['callee']['n'].split('::')[-1][len('operator'):]
+            a, b = kids(c)[1:]
+        if op is None:
+            return None
+        ca, cb, ct, cf = (canon(fn, x, inline=False) for x in (a, b, t, f))
+        if (ca, cb) == (cf, ct):
+            op = {'<': '>', '>': '<', '<=': '>=', '>=': '<='}[op]
+        elif (ca, cb) != (ct, cf):
+            return None
+        # now: (t op f) ? t : f
+        return vmin if op in ('<', '<=') else vmax
+
+    def select_stmt(self, fn, s):
+        ch = s.get('ch') or []
+        if len(ch) > 2 and ch[2]:
+            return None
+        body = ch[1]
+        while body and body['k'] == 'CompoundStmt' and len(kids(body)) == 1:
+            body = kids(body)[0]
+        while body and body['k'] in ('ExprWithCleanups',):
+            body = kids(body)[0]
+        if not body or body['k'] != 'BinaryOperator' or body.get('op') != '=':
+            return None
+        tgt, val = kids(body)
+        tgt = strip_casts(tgt)
+        if tgt['k'] != 'DeclRefExpr' or tgt.get('ref', {}).get('k') not in ('Local', 'Parm'):
+            return None
+        f = self.select(fn, ch[0], val, tgt)
+        if f is None:
+            return None
+        return f, tgt, val, tgt
 
     def arith(self, fn, e, r):
         t = (e.get('ct') or e.get('t') or '').replace('const ', '')
